@@ -2,6 +2,7 @@ package props
 
 import (
 	"fmt"
+	"strings"
 
 	"verif/third_party/xtools/go/ssa"
 
@@ -34,7 +35,13 @@ func c08Scope(p *core.Prog, m *echModel) []*ssa.Function {
 	}
 	var out []*ssa.Function
 	for _, f := range reachableFuncs(p, roots...) {
-		if f.Pkg != nil && f.Pkg.Pkg.Path() == Ech || f.Pkg == nil && core.Root(f).Pkg != nil && core.Root(f).Pkg.Pkg.Path() == Ech {
+		inPkg := func(path string) bool {
+			return f.Pkg != nil && f.Pkg.Pkg.Path() == path || f.Pkg == nil && core.Root(f).Pkg != nil && core.Root(f).Pkg.Pkg.Path() == path
+		}
+		if inPkg(HPKE) {
+			sizesOnly[core.Root(f)] = true
+		}
+		if inPkg(Ech) || inPkg(HPKE) {
 			// String() methods are debug output only but can run with debugf: keep them
 			out = append(out, f)
 		}
@@ -166,6 +173,52 @@ func c08Rules(p *core.Prog, r *core.Run) {
 		}
 	}
 	r.Floor("C08.I6", 2)
+	// ... and the debug function every Read and Write calls: whatever the
+	// options did (WithDebug(nil), no WithDebug at all), NewConn installs a
+	// function after the last option ran, and no option calls it before that
+	{
+		dbg := field(p, Ech, "Conn", "debugf")
+		var optLoop map[*ssa.BasicBlock]bool
+		var optHdr *ssa.BasicBlock
+		for h, body := range core.Loops(m.newConn) {
+			for b := range body {
+				for _, in := range b.Instrs {
+					if c, ok := in.(*ssa.Call); ok && p.X(c).Name == "dyn" && len(p.X(c).Args) == 2 && p.X(c).Args[0].Op == "index" {
+						optLoop, optHdr = body, h
+					}
+				}
+			}
+		}
+		installed := false
+		if dbg != nil && optHdr != nil {
+			for _, st := range fieldStores(p, []*ssa.Function{m.newConn}, dbg) {
+				v := p.X(st.Val)
+				if !(v.Op == "closure" || v.Op == "func") || optLoop[st.Block()] || !optHdr.Dominates(st.Block()) {
+					continue
+				}
+				for _, f := range p.Facts(st.Block()) {
+					if f.Op == "==" && f.R != nil && f.R.Name == "nil" && f.L.Op == "field" && f.L.Obj == dbg {
+						installed = true
+					}
+				}
+			}
+		}
+		r.Check("C08.I6", "NewConn:debugf-installed", installed, p.Pos(m.newConn.Pos()), "after the option loop NewConn replaces a nil debug function by a no-op (%v): Read and Write call it on every record", installed)
+		nEarly := 0
+		for _, fn := range p.PkgFuncs(Ech) {
+			root := core.Root(fn)
+			res := root.Signature.Results()
+			if fn == root || res.Len() != 1 || !strings.HasSuffix(res.At(0).Type().String(), ".Option") {
+				continue
+			}
+			for _, s := range allCalls(p, []*ssa.Function{fn}) {
+				if s.X.Name == "dyn" && len(s.X.Args) > 0 && s.X.Args[0].Op == "field" && s.X.Args[0].Obj == dbg {
+					nEarly++
+					r.Check("C08.I6", fmt.Sprintf("option:debugf-call@%s#%d", p.FuncName(root), nEarly), false, p.InstrPos(s.Instr), "the option of %s calls the debug function, which is nil until NewConn has run every option", p.FuncName(root))
+				}
+			}
+		}
+	}
 	// ... and the connection the alert is written to
 	alertTargets(p, r, "C08.I6")
 	// ... and the HPKE context the payload is opened with
